@@ -307,8 +307,12 @@ class CDS:
 
             # the unadjusted dates start at end date and end at previous
             # cpn date
+            flow_num = 0
+
             while next_dt > start_dt:
-                next_dt = next_dt.add_months(-num_months)
+                flow_num += 1
+                tot_num_months = num_months * flow_num
+                next_dt = self.maturity_dt.add_months(-tot_num_months)
                 unadjusted_schedule_dts.append(next_dt)
 
             # now we adjust for holiday using business day adjustment
@@ -332,9 +336,13 @@ class CDS:
 
             # the unadjusted dates start at start date and end at last date
             # before maturity date
+            flow_num = 0
+
             while next_dt < self.maturity_dt:
                 unadjusted_schedule_dts.append(next_dt)
-                next_dt = next_dt.add_months(num_months)
+                flow_num += 1
+                tot_num_months = num_months * flow_num
+                next_dt = start_dt.add_months(tot_num_months)
 
             # We then append the maturity date
             unadjusted_schedule_dts.append(self.maturity_dt)
